@@ -284,6 +284,12 @@ func (fr *frame) callStatic(st *State, fn *ssa.Function, args []Val, free []Val,
 			sub := u.newFrame(fn, fr)
 			sub.freeVal = free
 			sub.bc = u.E.contractFor(fn) // inline-with-contract: loop invariants still available
+			if sub.bc == nil && fn.Recover != nil && recoveringDefer(fn) != nil && fr.recovers() {
+				// an inlined closure that itself defers an unconditional recover (the "handler must not panic again"
+				// idiom inside a deferred handler): panics raised inside it are contained by ITS recover - the rest of the
+				// closure is skipped and the closure returns normally - not by the enclosing function's
+				sub.bc = &BoundContract{Recovers: true, FC: &FuncContract{Name: fn.Name()}}
+			}
 			vals, out := u.runFunction(sub, st.clone(), args)
 			if out == nil {
 				// callee never returns normally on this path
@@ -575,8 +581,21 @@ func (fr *frame) applyContract(st *State, bc *BoundContract, args []Val, pos tok
 	u.havocRegion(st, reg, key)
 	if bc.MayPanic && u.specMode == 0 {
 		if rf := fr.recoverFrame(); rf != nil {
-			// the call may panic after any part of its effect: that path is caught by the recovering function
-			rf.panics = append(rf.panics, st.clone())
+			// the call may panic after any part of its effect: that path is caught by the recovering function;
+			// "onpanic P" clauses state what is known of that state (e.g. a ghost counter of invocations)
+			// (a fresh boolean separates the two outcomes: merged states select by path condition, so the panicking and
+			// the returning continuation must not share one)
+			pb := c.Var(u.freshName("panicked_"+bc.FC.Name), SBool)
+			ps := st.clone()
+			ps.pc = c.And(st.pc, pb)
+			st.pc = c.And(st.pc, c.Not(pb))
+			if len(bc.OnPanic) > 0 {
+				penv := u.newSpecEnv(bc, ps, pre, args, nil)
+				for _, op := range bc.OnPanic {
+					u.assume(ps, penv.evalBool(op.Expr))
+				}
+			}
+			rf.panics = append(rf.panics, ps)
 		}
 	}
 	// native ghost effects: appends s, x  (s' = s ++ [x], everything else of s unchanged)
